@@ -12,6 +12,7 @@ import PasfmtModel.Proofs.TreeSorted
 import PasfmtModel.Proofs.PassCover
 import PasfmtModel.Proofs.ConsolidatorsCdc
 import PasfmtModel.Proofs.ConsolidatorsGen
+import PasfmtModel.Proofs.ParserFullSound
 
 namespace Pasfmt.C14
 
@@ -305,5 +306,56 @@ example :
       { parent := none, level := 0, tokens := [6], ltype := .lConditionalDirective }]
     (cdcConsolidate kinds lines).map (·.tokens) = [[0, 1, 2, 3, 4, 5, 6, 7, 8], [], [], []] := by
   decide
+
+end Pasfmt.C14
+
+/-! ### the whole parser as a model: no hypothesis on the control flow
+
+`Model/ParserFull.lean` (+ `ParserBase`, `ParserLeaf`) is an exact model of the parser's control flow (every
+function of `impl InternalDelphiLogicalLineParser`, translated arm by arm; total, fuel-bounded), compared with the
+real parser on every case (`pfull` stream: final token kinds and lines).  Its line builder state can only be changed
+by the primitives of the machine (`Traced`: the state is carried with the trace that produced it), so the theorems
+above, which hold for every trace, apply to it outright. -/
+
+namespace Pasfmt.C14
+
+theorem all2_mem_left {α β : Type} {R : α → β → Prop} {as : List α} {bs : List β} (h : All2 R as bs) :
+    ∀ a ∈ as, ∃ b ∈ bs, R a b := by
+  induction h with
+  | nil => intro a ha; cases ha
+  | cons hab _ ih =>
+    intro a ha
+    rcases List.mem_cons.1 ha with rfl | ha'
+    · exact ⟨_, List.mem_cons_self, hab⟩
+    · obtain ⟨b, hb, hr⟩ := ih a ha'
+      exact ⟨b, List.mem_cons_of_mem _ hb, hr⟩
+
+/-- **For every input on which the parser model answers, the lines of every pass are well formed**: strictly
+    increasing token positions, all within the file, and no token in two lines of the pass (or twice in one). -/
+theorem parser_model_lines_wellformed (toks : List (RawKind × Bool)) (o : ParseFullOut)
+    (h : parseFileFull toks = some o) :
+    ∀ ls ∈ o.passLines,
+      (∀ l ∈ ls, l.tokens.Pairwise (· < ·)) ∧ (∀ l ∈ ls, ∀ t ∈ l.tokens, t < toks.length) ∧
+      (ls.flatMap (·.tokens)).Nodup := by
+  obtain ⟨hall, hpasses⟩ := parseFileFull_passes toks o h
+  intro ls hls
+  obtain ⟨pt, hpt, hok⟩ := all2_mem_left hall ls hls
+  unfold PassOK at hok
+  obtain ⟨s, hrun, hlines⟩ := hok
+  have hp : pt.1 ∈ passes (toks.map (·.1)) := by
+    rw [← hpasses]; exact List.mem_map_of_mem hpt
+  obtain ⟨w1, w2, w3⟩ := file_lines_wellformed _ _ hp _ _ hrun
+  rw [← hlines]
+  refine ⟨w1, ?_, w3⟩
+  intro l hl t ht
+  have := w2 l hl t ht
+  rwa [List.length_map] at this
+
+/-- and every token of a pass that the control flow consumed is in a line of that pass or was skipped as a
+    directive: `machine_covers_pass` applies to the model's own traces -/
+theorem parser_model_passes_are_machine_runs (toks : List (RawKind × Bool)) (o : ParseFullOut)
+    (h : parseFileFull toks = some o) :
+    All2 (PassOK (toks.map (·.1))) o.passLines o.traces ∧ o.traces.map (·.1) = passes (toks.map (·.1)) :=
+  parseFileFull_passes toks o h
 
 end Pasfmt.C14
